@@ -161,6 +161,48 @@ var c07RHS = []rhsGen{
 		v[":e"] = val.List(val.Str("seed"))
 		return &refmodel.UExpr{Kind: "append", Kids: []*refmodel.UExpr{{Kind: "ifne", Path: pth("nolist"), Kids: []*refmodel.UExpr{uv(":e")}}, uv(":a")}}
 	}},
+	// function calls nested in EVERY argument position of another function (first and second argument)
+	{"append-v-ifne", func(v val.Item) *refmodel.UExpr {
+		v[":a"] = val.List(val.Str("new"))
+		v[":e"] = val.List()
+		return &refmodel.UExpr{Kind: "append", Kids: []*refmodel.UExpr{uv(":a"), {Kind: "ifne", Path: pth("l2"), Kids: []*refmodel.UExpr{uv(":e")}}}}
+	}},
+	{"append-v-ifne-absent", func(v val.Item) *refmodel.UExpr {
+		v[":a"] = val.List(val.Str("new"))
+		v[":e"] = val.List(val.Str("seed"))
+		return &refmodel.UExpr{Kind: "append", Kids: []*refmodel.UExpr{uv(":a"), {Kind: "ifne", Path: pth("nolist"), Kids: []*refmodel.UExpr{uv(":e")}}}}
+	}},
+	{"append-ifne-ifne", func(v val.Item) *refmodel.UExpr {
+		v[":e"] = val.List(val.Str("seed"))
+		v[":f"] = val.List(val.Str("other"))
+		return &refmodel.UExpr{Kind: "append", Kids: []*refmodel.UExpr{{Kind: "ifne", Path: pth("m", "li"), Kids: []*refmodel.UExpr{uv(":e")}}, {Kind: "ifne", Path: pth("l2"), Kids: []*refmodel.UExpr{uv(":f")}}}}
+	}},
+	{"ifne-ifne-first-present", func(v val.Item) *refmodel.UExpr {
+		v[":d"] = val.Str("default")
+		return &refmodel.UExpr{Kind: "ifne", Path: pth("s"), Kids: []*refmodel.UExpr{{Kind: "ifne", Path: pth("n"), Kids: []*refmodel.UExpr{uv(":d")}}}}
+	}},
+	{"ifne-ifne-second-present", func(v val.Item) *refmodel.UExpr {
+		v[":d"] = val.Str("default")
+		return &refmodel.UExpr{Kind: "ifne", Path: pth("nope"), Kids: []*refmodel.UExpr{{Kind: "ifne", Path: pth("n"), Kids: []*refmodel.UExpr{uv(":d")}}}}
+	}},
+	{"ifne-ifne-none-present", func(v val.Item) *refmodel.UExpr {
+		v[":d"] = val.Str("default")
+		return &refmodel.UExpr{Kind: "ifne", Path: pth("nope"), Kids: []*refmodel.UExpr{{Kind: "ifne", Path: pth("nope2"), Kids: []*refmodel.UExpr{uv(":d")}}}}
+	}},
+	{"ifne-append", func(v val.Item) *refmodel.UExpr {
+		v[":a"] = val.List(val.Str("tail"))
+		return &refmodel.UExpr{Kind: "ifne", Path: pth("nope"), Kids: []*refmodel.UExpr{{Kind: "append", Kids: []*refmodel.UExpr{up(pth("l2")), uv(":a")}}}}
+	}},
+	{"append-append", func(v val.Item) *refmodel.UExpr {
+		v[":a"] = val.List(val.Str("a1"))
+		v[":b"] = val.List(val.Str("b1"))
+		return &refmodel.UExpr{Kind: "append", Kids: []*refmodel.UExpr{uv(":a"), {Kind: "append", Kids: []*refmodel.UExpr{up(pth("l2")), uv(":b")}}}}
+	}},
+	{"plus-ifne-ifne", func(v val.Item) *refmodel.UExpr {
+		v[":d"] = val.Num("100")
+		v[":z"] = val.Num("7")
+		return &refmodel.UExpr{Kind: "plus", Kids: []*refmodel.UExpr{{Kind: "ifne", Path: pth("n"), Kids: []*refmodel.UExpr{uv(":d")}}, {Kind: "ifne", Path: pth("cnt"), Kids: []*refmodel.UExpr{uv(":z")}}}}
+	}},
 	{"append-nonlist", func(v val.Item) *refmodel.UExpr {
 		v[":a"] = val.List(val.Str("x"))
 		return &refmodel.UExpr{Kind: "append", Kids: []*refmodel.UExpr{up(pth("s")), uv(":a")}}
